@@ -799,6 +799,74 @@ def run(ctx):
                         "termination": MODES[mode], "thread": killer, "at_event": k,
                         "theorem": "c04_crash_prefix, c04_crash_whole_records, c04_flush_covers_unended"})
 
+    # ---- (c) e2e: fork / exec / exit of children and non-initial tasks --------------------------------
+    ex2 = {"runs": 0, "records": 0, "failures": 0, "shm_files_left_behind": 0, "by_scenario": {}}
+    if okm:
+        d = os.path.join(ctx.scratch, "execp")
+        os.makedirs(d)
+        open(os.path.join(d, "x.c"), "w").write(gen_exec_program())
+        flavours = ["pg", "cyg", "fentry"]
+        use = [flavours[ctx.seed % 3]] if ctx.tier == "quick" else flavours
+        ejobs = []
+        for fl in use:
+            okb, blog = c03.build_program(os.path.join(d, "x.c"), os.path.join(d, "x_" + fl), fl)
+            if not okb:
+                C.violation(ctx, "execbuild", {"kind": "generated-program-does-not-compile", "log": blog[-2000:]}, True)
+                continue
+            for rep in range(1 if ctx.tier == "quick" else 4):
+                for scen in EXEC_SCEN:
+                    rng = ctx.rng
+                    # the image after exec (the parent, for the exit scenarios) fills several 4k buffers (255 records
+                    # each), so that its first buffers are written while it is still running
+                    npost = rng.randint(300, 900)
+                    npre = rng.choice([3, 8, 20, 40, 150])
+                    for pk in ((0, rng.randint(120, npost - 20)) if scen in (1, 2, 3, 4, 8) else (0,)):
+                        ejobs.append((fl, scen, npre, npost, pk, len(ejobs)))
+
+        def one_exec(job):
+            fl, scen, npre, npost, pk, jid = job
+            dd = os.path.join(d, "data%d" % jid)
+            gtf = os.path.join(d, "gt%d.bin" % jid)
+            exe2 = os.path.join(d, "x_" + fl)
+            rc, out, err = c03.run_record(ctx, exe2, dd, gtf, ["-b", "4k", "--num-thread", str(1 + jid % 3)],
+                                          prog_args=[scen, npre, npost, pk], timeout=30)
+            if rc == -9 or rc == 137:
+                return job, ["uftrace record did not terminate within 30 s (killed by the check)"], 0, 0
+            if not os.path.exists(gtf):
+                return job, ["program did not start: " + err[-300:]], 0, 0
+            slots = read_slots(gtf)
+            bad, n = check_exec_run(ctx, exe2, dd, slots, scen, pk, err)
+            left = shm_leftovers(dd)
+            shutil.rmtree(dd, ignore_errors=True)
+            os.unlink(gtf)
+            return job, bad, n, len(left)
+        with ThreadPoolExecutor(6) as ex:
+            eouts = list(ex.map(one_exec, ejobs))
+        for (fl, scen, npre, npost, pk, jid), bad, n, left in eouts:
+            ex2["runs"] += 1
+            ex2["records"] += n
+            ex2["shm_files_left_behind"] += left
+            bs = ex2["by_scenario"].setdefault(EXEC_SCEN[scen], {"runs": 0, "failures": 0})
+            bs["runs"] += 1
+            if bad:
+                bs["failures"] += 1
+                ex2["failures"] += 1
+                if ex2["failures"] <= 3:
+                    keep = os.path.join(C.VERIF, "replays", "C04-exec-seed%d.c" % ctx.seed)
+                    os.makedirs(os.path.dirname(keep), exist_ok=True)
+                    try:
+                        shutil.copy(os.path.join(d, "x.c"), keep)
+                    except OSError:
+                        keep = None
+                    C.violation(ctx, "exec-%d-%d" % (scen, jid), {
+                        "kind": "property-violated-on-implementation", "what": bad[:5], "program": keep,
+                        "build": "gcc -O1 -g -no-pie <%s flags> x.c -lpthread" % fl, "scenario": EXEC_SCEN[scen],
+                        "command": "uftrace record --no-event -b 4k --num-thread %d ./x gt.bin %d %d %d %d" % (
+                            1 + jid % 3, scen, npre, npost, pk),
+                        "expected": "<tid>.dat = records of the task's first image, then those of the image after "
+                                    "exec, in order (timestamps never go back)",
+                        "theorem": "c04_exec_flush_order, c04_crash_prefix, c04_flush_covers_unended"})
+
     ctx.coverage.update({
         "evaluations": nsteps + segv["runs"] + e2e["runs"] + steps["instructions"],
         "distinct_nontrivial": len(distinct) + e2e["runs"],
@@ -808,11 +876,15 @@ def run(ctx):
                 "and the sequence of distinct results compared with the model's micro-steps; crash handler: "
                 "SIGABRT and SIGSEGV raised in-process at call depths %s with --max-stack %d; e2e: every "
                 "termination mode x k-th event (k = 1..5 and random up to 400; thorough: 1..30 and 8 random, 4 programs) x terminating thread, "
-                "2-3 threads, -pg / -finstrument-functions / -mfentry, under the real recorder" % (
+                "2-3 threads, -pg / -finstrument-functions / -mfentry, under the real recorder; fork/exec: exec from the "
+                "initial task, a forked child, a non-initial thread, a thread of a forked child, a grandchild, and "
+                "_exit / SIGKILL / abort in a forked child, each with an image after exec (or a parent) that fills "
+                "several 4k buffers, with and without a SIGKILL of the new image" % (
                     len(res), len(sres), depths, maxstack),
         "h1_schedules": len(res), "h1_steps_compared": nsteps, "h1_stop_kinds": hows, "h1_flushes_of_unended_buffers": flushes,
         "model_code_disagreements": disagree, "monitor_failures_on_impl": monfail,
-        "crash_handler": segv, "kill_at_every_instruction": steps, "e2e": e2e, "exhaustive": False,
+        "crash_handler": segv, "kill_at_every_instruction": steps, "e2e": e2e, "e2e_fork_exec": ex2,
+        "exhaustive": False,
         "samples": [{"config": {"threads": d["gen"].nt, "stop": d["gen"].how}, "last_impl": c03.norm_state(d["impl"][-1])[:300]}
                     for d in res[:2] if d["impl"]],
     })
